@@ -100,7 +100,13 @@ func (in *Interp) strEq(a, b StrV) *Term {
 		return ts.False
 	}
 	bound := minInt(a.Max, b.Max)
-	if bound > in.cfg.MaxBytes {
+	if a.Len.IsConst() && int(a.Len.val) < bound {
+		bound = int(a.Len.val)
+	}
+	if b.Len.IsConst() && int(b.Len.val) < bound {
+		bound = int(b.Len.val)
+	}
+	if bound > in.cfg.MaxBytes && !(a.Len.IsConst() || b.Len.IsConst()) {
 		in.boundExceeded("string comparison longer than MaxBytes")
 		bound = in.cfg.MaxBytes
 	}
@@ -483,6 +489,23 @@ func (in *Interp) ubound(t *Term) int {
 	case OpExtract:
 		if t.sort.W < 63 {
 			return int(mask(t.sort.W))
+		}
+	case OpAdd:
+		a, b := in.ubound(t.args[0]), in.ubound(t.args[1])
+		if a < 1<<40 && b < 1<<40 {
+			r := a + b
+			if t.sort.W < 63 && r > int(mask(t.sort.W)) {
+				r = int(mask(t.sort.W))
+			}
+			return r
+		}
+	case OpSub:
+		// x - c with c <= x is not known syntactically; x - y <= ub(x) only if no wrap: unknown
+	case OpLShr:
+		return in.ubound(t.args[0])
+	case OpURem:
+		if b := in.ubound(t.args[1]); b != maxInt && b > 0 {
+			return b - 1
 		}
 	}
 	if t.sort.W < 63 {
